@@ -169,6 +169,16 @@ Definition parse_num (s : list ascii) : option Q :=
   | None => parse_dec_chars false s
   end.
 
+(* the value a '10.pe' field denotes: printed digits d.ddd times 10^x *)
+Definition sci_value (neg : bool) (m x : Z) (p : nat) : Q :=
+  ((if neg then -(1) else 1) * (inject_Z (m mod pow10 (S p)) / inject_Z (pow10 p))) * Qpow10 x.
+Definition sci_shown (q : Q) (p : nat) : Q :=
+  if Qeq_bool q 0 then sci_value false 0 0 p
+  else let '(m, x) := sig_round q (S p) in sci_value (qneg q) m x p.
+(* what a reader / the client gets from a rendered value *)
+Definition printed (k : fkind) (q : Q) : Q :=
+  match k with KFix => shown q 2 | KSci => sci_shown q 2 | KPct => shown (100 * q) 2 end.
+
 Definition strip (s : list ascii) : list ascii := rev (skip_spaces (rev (skip_spaces s))).
 Definition no_space (s : list ascii) : bool := forallb (fun c => negb (Ascii.eqb c sp)) s.
 
@@ -217,6 +227,14 @@ Definition lines_of (s : string) : list (list ascii) := lines_acc [] (chars s).
 (* HipRaResult(...).result as an association list, in order of appearance *)
 Definition parse_report (s : string) : list (list ascii * Q * option (list ascii)) :=
   flat_map (fun l => match parse_line l with Some r => [r] | None => [] end) (lines_of s).
+
+(* labels / units for which a report line is parsed back as written *)
+Definition label_ok_b (label : list ascii) : bool :=
+  match label with c :: _ => negb (Ascii.eqb c sp) | [] => false end &&
+  match rev label with c :: _ => negb (Ascii.eqb c sp) | [] => false end &&
+  forallb (fun c => negb (Ascii.eqb c ":"%char)) label.
+Definition name_ok_b (p : string * string) : bool := label_ok_b (chars (fst p)) && no_space (chars (snd p)).
+Definition unit_opt (u : list ascii) : option (list ascii) := match u with [] => None | _ => Some u end.
 
 (* ---- comparisons used by the correspondence ---- *)
 Definition fval_of (neg_zero : bool) (q : Q) : fval := if neg_zero then NegZero else Fin q.
